@@ -198,7 +198,8 @@ fn judge(c: &QCase, res: Option<(ColorPalette, SurfaceOwned<usize>)>) -> Result<
             ));
         }
     }
-    if !c.dither {
+    // brute force over the palette for every pixel; palettes beyond 4096 entries are judged by the exactness clause only
+    if !c.dither && colors.len() <= 4096 {
         for (k, i) in idx.iter().enumerate() {
             let got = dist(comp[k], colors[*i]);
             let best = colors.iter().map(|p| dist(comp[k], *p)).min().unwrap();
@@ -481,11 +482,11 @@ fn sweep_small(sh: &Shared, tier: Tier) -> u64 {
     images
 }
 
-/// (1d) alpha ladder: all images of 1..=4 pixels over {two RGB values} x {alpha 0, 64, 128, 200, 255}: pixels that
+/// (1d) alpha ladder: all images of 1..=4 pixels over {three RGB values, black among them} x {alpha 0, 64, 128, 200, 255}: pixels that
 /// share their RGB and differ only in alpha, next to each other in scan order, over the three backgrounds.
 fn sweep_alpha(sh: &Shared) -> u64 {
     let mut ladder: Vec<[u8; 4]> = vec![];
-    for rgb in [[200u8, 0, 0], [10, 90, 250]] {
+    for rgb in [[200u8, 0, 0], [10, 90, 250], [0, 0, 0]] {
         for a in [0u8, 64, 128, 200, 255] {
             ladder.push([rgb[0], rgb[1], rgb[2], a]);
         }
@@ -635,6 +636,11 @@ fn sweep_large(sh: &Shared) -> u64 {
                 }
             }
         }
+    }
+    // more distinct colours than a 16-bit index can address, all of them requested: exact reproduction
+    for n in [65_535usize, 65_536, 65_537, 67_584] {
+        let pixels: Vec<[u8; 4]> = (0..n).map(|i| [(i % 256) as u8, (i / 256 % 256) as u8, (i / 65_536 * 85 + 3) as u8, 255]).collect();
+        cases.push(QCase { h: 1, w: n, pixels, size: 70_000, dither: false, bg: None, crop: false });
     }
     for n in [132_100usize, 132_107, 132_111, 197_379, 197_383] {
         let pixels = vec![[254u8, 254, 254, 255]; n];
